@@ -62,6 +62,10 @@ const (
 )
 
 func (p *Parser) rune() rune {
+	if p.r == runeEOF {
+		// Already at the end of the input; do not advance the position again.
+		return p.r
+	}
 	if p.r == '\n' || p.r == escNewl {
 		// p.r instead of b so that newline
 		// character positions don't have col 0.
